@@ -281,6 +281,18 @@ func init() {
 			for _, s := range runScenarios(tier, true) {
 				us = append(us, scenarioUnit(s, exploreOpts{bound: tierBound(tier, 1, 2), menu: menuTSE, cancelMS: -1}, oracleC07))
 			}
+			// expressions that fail at run time, over an input alphabet
+			alts := altsBasic[:3]
+			for _, p := range evalFailPrograms() {
+				for _, in := range evalFailInputs() {
+					for _, sc := range vectors(p, alts, 9) {
+						s := &Scenario{Class: p.Name, Prog: p, Script: sc, Input: in}
+						s.Name = p.Name + "/" + vecName(sc) + "/" + canonStr(in)
+						s.Ref = evalProgram(p, sc, in)
+						us = append(us, scenarioUnit(s, exploreOpts{bound: tierBound(tier, 1, 2), menu: menuTSME, cancelMS: -1}, oracleC07, oracleC01))
+					}
+				}
+			}
 			return us
 		}})
 }
